@@ -79,6 +79,16 @@ struct Harness
     // Runs in a forked child with the result fd installed.  Must call
     // sim::begin_run(sched_of(plan)).  Returning normally means "ok".
     virtual void execute(const Plan& plan) = 0;
+    // Plan of run `idx` of a profile.  `pbase` is the check's seed mixed with
+    // property and profile.  The default derives an independent run seed; a
+    // harness may override it to ENUMERATE a dimension systematically over
+    // consecutive run indices (e.g. every fault ordinal of one configuration).
+    virtual Plan generate_run(uint64_t pbase, uint64_t idx,
+                              const std::string& property,
+                              const std::string& profile)
+    {
+        return generate(mix64(pbase, idx), property, profile);
+    }
     // how many runs one child process executes (micro-runs are batched)
     virtual int batch(const std::string& property) const { return 1; }
     // non-triviality rule over a finished run's probes
